@@ -111,6 +111,16 @@ def run(ctx):
             cases.append({"id": "col%d" % i, "schema": schema, "dir": d, "kind": "col",
                           "ops": [{"op": "create_or_load", "schema": schema, "dir": d, "alias": i % 2 == 0}, {"op": "verify"}, {"op": "db_query", "q": "version_name"},
                                   {"op": "release_all"}, {"op": "load", "dir": d}, {"op": "verify"}, {"op": "release_all"}]})
+            # the same place used again within one process: a library of the other generation is created there, loaded,
+            # released and deleted first
+            d = os.path.join(root, "reused%d" % i)
+            os.makedirs(d)
+            other = "1.6.0" if is_v2(schema) else "2.21.2"
+            pre = [{"op": "create", "schema": other, "dir": d}, {"op": "release_all"}, {"op": "load", "dir": d}, {"op": "exists", "dir": d},
+                   {"op": "release_all"}, {"op": "wipe_dir", "dir": d}, {"op": "exists", "dir": d}]
+            cases.append({"id": "reuse%d" % i, "schema": schema, "dir": d, "kind": "reuse", "_off": len(pre),
+                          "ops": pre + [{"op": "create", "schema": schema, "dir": d}, {"op": "verify"}, {"op": "db_query", "q": "version_name"},
+                                        {"op": "release_all"}, {"op": "load", "dir": d}, {"op": "verify"}, {"op": "release_all"}]})
             cases.append({"id": "temp%d" % i, "schema": schema, "kind": "temp",
                           "ops": [{"op": "create_temporary", "schema": schema}, {"op": "verify"}, {"op": "db_query", "q": "version_name"},
                                   {"op": "rawdump", "checks": False},
@@ -128,6 +138,15 @@ def run(ctx):
                 ctx.violation(f"creation-did-not-complete {schema} {c['kind']}", f"{schema}: create/verify/load sequence did not complete", wit)
                 continue
             ev = r.events
+            off = c.get("_off", 0)
+            if off:
+                if any("exc" in e for e in ev[:off]) or ev[off - 1].get("ret") is not False:
+                    ctx.violation(f"reused-directory-prelude {schema}", f"{schema}: creating, loading and deleting a library of the other generation "
+                                  f"in the same place did not go as expected: {[e.get('ret', e.get('exc', {}).get('type')) for e in ev[:off]]}", wit)
+                    continue
+                ctx.bump("directories_reused_within_one_process")
+                ev = ev[off:]
+                c = dict(c, ops=c["ops"][off:])
             for k, e in enumerate(ev):
                 if "exc" in e:
                     what = bytes.fromhex(e["exc"].get("what", "")).decode(errors="replace")[:140]
@@ -141,7 +160,7 @@ def run(ctx):
             want_ver = schema_tuple(schema)
             if c["kind"] == "col" and (ev[0]["ret"].get("created") is not True):
                 ctx.violation(f"create-or-load-did-not-create {schema}", f"{schema}: create_or_load_database on an empty directory reports {ev[0]['ret']}", wit)
-            if c["kind"] in ("disk", "col"):
+            if c["kind"] in ("disk", "col", "reuse"):
                 if ev[4]["ret"]["loaded_schema"] != schema or ev[4]["ret"]["version_name"] != schema:
                     ctx.violation(f"not-recognised-on-load {schema}", f"{schema}: loading the created library reports {ev[4]['ret']}", wit)
                 files = {"m": os.path.join(c["dir"], "Database2", "m.db") if v2 else os.path.join(c["dir"], "m.db")}
@@ -156,7 +175,7 @@ def run(ctx):
                         ver = SN.version_of(con)
                         if ver != want_ver:
                             ctx.violation(f"stored-version-wrong {schema} {which}.db", f"{schema}: {which}.db stores version {ver}", wit)
-                        compare(ctx, schema, "disk" if c["kind"] == "disk" else "create_or_load", which, SN.extract(con), refs, wit)
+                        compare(ctx, schema, {"disk": "disk", "col": "create_or_load", "reuse": "reused directory"}[c["kind"]], which, SN.extract(con), refs, wit)
                     finally:
                         con.close()
             else:
